@@ -12,26 +12,78 @@
   DESIGN §4), the target is the x86-64 machine `Scc.X86.run` ON THE EMITTED TEXT, wrapped in the model
   of the C driver and io.c (`Scc.Pipeline.nativeRun`, runtime model of C20).
 
-  * `C02_sem_statement`  the semantic statement of C02 (Fun machine vs Core machine on `compileProg`,
-                         for `Sequenced` programs); Props/C02.lean deliberately omits it.
-  * `C01_statement`      the full end-to-end statement (def).
-  * `C01_composition`    THE COMPOSITION THEOREM: `C01_statement` follows from one named hypothesis per
-                         link that is not a theorem yet
-                           semantic links:  `C02_sem_statement`, `C03_statement`, `C04_full_statement`,
-                                            `X86.C06_statement`
-                           typing links (shared with C12): `C12_link_fun2core`, `C12_link_focus`,
-                                            `C12_link_shrink`
-                         and uses directly the links that ARE theorems: `C15_sound`,
-                         `C03_unique_binders_global`, `C04_no_panic`, `C05_linearize_LinTyped`, `C05_T4`
-                         (named machine on S4 = positional machine on S5), `C20_current_full` (io.c prints
-                         the decimal representation of every value, the driver converts every argument),
-                         `exitStatus_eq`; the side conditions "`main` is the first definition and its
-                         parameters are integers" of C04 / C05_T4 are PROVED for every stage
-                         (Scc/Pipeline/Lemmas.lean `stages_mainHead`), `uniqueIdsCheck` of C04 is derived
-                         from C03's theorem (Scc/Pipeline/Bridges.lean).
+  * `C01_statement_full` the property as given (def): every accepted program with a valid `main`.  It cannot
+                         be proved as it stands: a program that CALLS `main` is mistranslated by fun2core
+                         (finding D13, `C12_statement_full_false`: `∃ q5, middleEnd …` holds but S2 is
+                         ill-typed and the Core machine is stuck where the Fun machine returns 3), and a
+                         program whose names are not `LabelSafe` (C14) is printed with a label defined twice.
+  * `C01_statement`      the statement that the composition proves (def): `C01_statement_full` with three
+                         DECIDABLE per-program hypotheses, all evaluated by the checks on every accepted
+                         program of every run (`Scc.Pipeline.Links.linksLine`):
+                           `Scc.Fun.noMainCall p'`  no definition calls `main` (Scc/Fun/MainCall.lean),
+                           `C01_linkChecks p'`      (= `C12_linkChecks`) the middle end succeeds and its stages
+                                                    pass the executable typing checks that are not theorems yet
+                                                    (S2 is C03's `Input`; S3 `wtFsScopedCheck`; S4 `wtAxCheck`,
+                                                    `wfNonLinearCheck`),
+                           `C01_labelSafe p'`       `LabelSafe` (Props/C14Generic) of the linearized program.
+  * `C01_composition`    THE COMPOSITION THEOREM: `C01_statement` follows from TWO named hypotheses, one per
+                         semantic link that is not a theorem yet, each restricted to the programs of the
+                         statement (accepted, valid `main` that is not called, `C01_linkChecks`):
+                           `C01_link_fun2core_sem`  fun2core (C02, semantics): on `Sequenced` programs a run of
+                                                    the Fun machine that ends with a result is reproduced by the
+                                                    Core ς-machine on the translation (the FORWARD half of
+                                                    `C02_sem_statement`, results only; agent pf-c02sem)
+                           `C01_link_x86`           x86-64 (C06): a run of the positional AxCut machine on S5
+                                                    that ends with a result is reproduced by the x86-64 machine on
+                                                    the routine TEXT (`X86.C06_statement` restricted to `LabelSafe`
+                                                    S5 of the pipeline; agent pf-x86B)
+                         (`C01_link_fun2core_sem_of_C02`, `C01_link_x86_of_C06`: the unrestricted statements
+                         imply them; `C02_sem_statement_false`: the unrestricted C02 statement is FALSE, D13.)
+                         `C01_composition_frag`: for the programs of the decidable fragment `C01_fragChecks`
+                         (`Fun2Core.Sem.fragOk`: integers, data / `case`, labels, calls — no codata) fun2core's
+                         forward semantics IS a theorem (`C02_sem_forward_frag`, Props/C02Sem.lean) and the
+                         end-to-end conclusion follows from `C01_link_x86` ALONE.
+                         `C01_from_core` / `C01_composition_unsequenced`: from the Core program S2 on — in
+                         particular for every program outside the fragment `Sequenced` — the conclusion needs
+                         `C01_link_x86` ONLY.  `C01_x86_run_of_abs`: with Theorem A (`TheoremA_run`, a theorem)
+                         the x86-64 link reduces, for programs within Theorem A's (decidable) capacity conditions, to
+                         `C01_link_x86_abs`: abstract backend machine on the mock code ⟶ x86-64 text.
+                         `C01_x86_run_int`: for INTEGER programs (`C06Generic.IntProg`) the conclusion of
+                         `C01_link_x86` is a theorem (`X86.C06_int_programs_text`, pf-x86B) under
+                         Theorem A's static capacity condition, given that the routine's text loads (`X86.TextLoads routine`).
+                         EVERY other link is a theorem and is used as such:
+                           C15 `C15_sound`; C03 `C03_focus_sem_panicFree` (ς-machine on S2 ≈ focused machine on
+                           S3; `focusPanicFree` is read off `stages p' = ok`), `C03_unique_binders_global`
+                           (⇒ `uniqueIdsCheck`, `idsBoundedCheck`: Scc/Pipeline/Bridges.lean); C04 `C04_sem`
+                           (focused machine on S3 ≈ named AxCut machine on S4; `mainIntParams` and "`main` first"
+                           from `stages_mainHead`), `shrinkProg_noEnvAnn`; C05 `C05_linearize_LinTyped`,
+                           `C05_T4` (named machine on S4 ≈ positional machine on S5); C20 `C20_current_full`
+                           (io.c prints the decimal representation of every value, the driver converts every
+                           argument), `exitStatus_eq`.
+                         The former hypotheses `C03_statement` and `C04_full_statement` were FALSE
+                         (`C03_statement_refuted`, `C04_full_statement_false`) — the composition was vacuous —
+                         and the former typing links `C12_link_*` are replaced by the per-program predicate.
+  * `C01_middle`         UNCONDITIONAL (no semantic hypothesis, no link): for every accepted program with a
+                         valid `main` and `C01_linkChecks`, the Core ς-machine on S2 and the positional AxCut
+                         machine on S5 have the same runs that end with a result (same trace, same value, both
+                         directions; an arithmetic fault of the positional machine is a stuck run of the Core
+                         machine with the same trace), and — Theorem A, `C06Generic.TheoremA_run` — the abstract
+                         backend machine on the mock code of S5 reproduces every such run (capacity conditions
+                         of Theorem A, all decidable on the program: `LabelSafe`, `CodeFits`,
+                         `ProgWithinCapacity` — the hypothesis of `TheoremA_run` on all contexts of a run is
+                         DERIVED from this static check, Scc/AxCut/PosCapacity.lean, Props/C06Capacity.lean —
+                         and fewer than 2^64 steps).
+                         Not covered (precise obstacle): stuck runs forward — `C04_sem`'s `SameBehaviour` maps a
+                         stuck Core run to a stuck AxCut run WITHOUT relating the reasons, so a division by zero
+                         on S2 is only known to be "stuck" on S4 and `C05_T4` (which needs the reason) does not
+                         apply; and diverging runs (`C04_sem` has no clause about prefixes of infinite traces).
 -/
 import Scc.Props.C12
+import Scc.Props.C01Checks
+import Scc.Props.C02Sem
 import Scc.Props.C04Sem
+import Scc.Props.C06Generic
+import Scc.Props.C06Capacity
 import Scc.Props.C06X86
 import Scc.Props.C20Full
 
@@ -39,6 +91,7 @@ namespace Scc.Props
 
 open Scc Scc.Pipeline
 open Scc.Fun.Check (checkProgram programNamesOk)
+open Scc.Props.C14Generic (LabelSafe)
 
 /-! ## C02, semantic statement -/
 
@@ -56,10 +109,17 @@ def ObsSame (r1 r2 : Nat → Obs) : Prop :=
   (∀ m, ObsFinished (r2 m).res → ∃ n, r1 n = r2 m) ∧
   (∀ n, ∃ m, (r1 n).out <+: (r2 m).out) ∧ (∀ m, ∃ n, (r2 m).out <+: (r1 n).out)
 
-/-- C02 (semantics): for every accepted program in the fragment `Sequenced` (arguments of calls,
-    constructors, destructors and operators and codata-typed bound terms are pure) the Core program
-    produced by the translation has, on the Core ς-machine, the same output and result as the source
-    program on the Fun machine. -/
+/-- the runs that end with a RESULT correspond, in both directions, with the same trace -/
+def DoneSame (r1 r2 : Nat → Obs) : Prop :=
+  ∀ t v, (∃ n, r1 n = ⟨t, .done v⟩) ↔ (∃ m, r2 m = ⟨t, .done v⟩)
+
+/-- C02 (semantics), as given: for every accepted program in the fragment `Sequenced` (arguments of
+    calls, constructors, destructors and operators and codata-typed bound terms are pure) the Core
+    program produced by the translation has, on the Core ς-machine, the same output and result as the
+    source program on the Fun machine.
+    NOT a hypothesis of the composition any more: it is false for a program that calls `main`
+    (finding D13; on `C12_d13Src` with argument 3 the Fun machine returns 3, the Core machine is stuck:
+    `arity`).  The composition assumes `C01_link_fun2core_sem` below. -/
 def C02_sem_statement : Prop :=
   ∀ (p : Fun.Program) (p' : Fun.CheckedProgram) (q2 : Core.Prog),
     programNamesOk p = true → checkProgram p = .ok p' → Fun.Sequenced p' = true →
@@ -67,28 +127,119 @@ def C02_sem_statement : Prop :=
     ∀ args : List Word,
       ObsSame (fun n => ofFun (Fun.run p' args n)) (fun n => ofCore (Core.run q2 args n))
 
-/-! ## C01, the statement -/
+/-! ## the per-program predicates: `C01_linkChecks`, `C01_labelSafe` (Scc/Props/C01Checks.lean) -/
 
-/-- C01, full statement.  For every program accepted by the checker with a valid `main`:
+/-! ## the machines the statements speak about -/
+
+/-- "given enough heap, with some fuel": there is a heap size such that on EVERY sane configuration of
+    the x86-64 machine with that heap size — `X86.Ref.MachOK` (Scc/X86/RefInit.lean): the heap lies below
+    the stack, addresses stay below 2^63, the stack top is 16-aligned (System V) and the stack has room
+    for the routine's frame; the default `{}` is one (`machOK_default`) — and the heap monitor off,
+    `P cfg m` holds for some fuel `m`.
+    (The earlier formulation quantified over ALL configurations with that heap size, including ones
+    without a stack, on which every routine faults; and fixed the fuel before the configuration.) -/
+def C01_onMachines (P : X86.MonCfg → Nat → Prop) : Prop :=
+  ∃ heapBytes : Nat, ∀ cfg : X86.MonCfg, cfg.mach.heapBytes = heapBytes → X86.Ref.MachOK cfg.mach →
+    cfg.heap = false → ∃ m, P cfg m
+
+theorem C01_onMachines.mono {P Q : X86.MonCfg → Nat → Prop} (h : C01_onMachines P)
+    (hpq : ∀ cfg m, cfg.heap = false → P cfg m → Q cfg m) : C01_onMachines Q := by
+  obtain ⟨hb, h⟩ := h
+  refine ⟨hb, fun cfg h1 h2 h3 => ?_⟩
+  obtain ⟨m, hm⟩ := h cfg h1 h2 h3
+  exact ⟨m, hpq cfg m h3 hm⟩
+
+/-! ## C01, the statements -/
+
+/-- the conclusion of C01 for one checked program:
     the middle end (S2 … S5) does not fail; and whenever the x86-64 code generator produces a routine
     (it may stop with the capacity error) the reported number of arguments is the arity of `main`, and
     for every argument tuple on which the source semantics finishes with result `v` and trace `t`
     there are a fuel and a heap size such that the x86-64 machine on the routine TEXT finishes without
     fault with the same trace and result `v`; hence (C20) the linked binary started as
     `prog a1 … an` writes exactly the decimal rendering of `t` and exits with status `v mod 256`. -/
+def C01_conclusion (p' : Fun.CheckedProgram) : Prop :=
+  (∃ q5, middleEnd p' = .ok q5) ∧
+  ∀ (hooks : Bool) (nargs : Nat) (text : String),
+    compileAllX86 hooks 0 p' = .ok (nargs, text) →
+    nargs = mainArity p' ∧
+    ∀ (args : List Word) (n : Nat) (t : List (Bool × Word)) (v : Word),
+      srcRun p' args n = ⟨t, .done v⟩ →
+      args.length = nargs ∧
+      C01_onMachines fun cfg m =>
+        (X86.run text args m cfg).out = t ∧ (X86.run text args m cfg).res = .done v ∧
+        nativeRun text nargs (argvOf args) m cfg = some (renderTrace t, Runtime.exitStatus v.toInt)
+
+/-- C01 as given: for EVERY program accepted by the checker with a valid `main`.  Kept visible; see the
+    header for why it cannot hold (finding D13, label-unsafe names). -/
+def C01_statement_full : Prop :=
+  ∀ (p : Fun.Program) (p' : Fun.CheckedProgram),
+    programNamesOk p = true → checkProgram p = .ok p' → validMain p' = true → C01_conclusion p'
+
+/-- C01 for every accepted program with a valid `main` that is not called, whose stages pass the
+    executable typing checks and whose linearized program has label-safe names (three decidable
+    predicates, evaluated on every program of every run) -/
 def C01_statement : Prop :=
   ∀ (p : Fun.Program) (p' : Fun.CheckedProgram),
     programNamesOk p = true → checkProgram p = .ok p' → validMain p' = true →
-    (∃ q5, middleEnd p' = .ok q5) ∧
-    ∀ (hooks : Bool) (nargs : Nat) (text : String),
-      compileAllX86 hooks 0 p' = .ok (nargs, text) →
-      nargs = mainArity p' ∧
-      ∀ (args : List Word) (n : Nat) (t : List (Bool × Word)) (v : Word),
-        srcRun p' args n = ⟨t, .done v⟩ →
-        args.length = nargs ∧
-        ∃ (m heapBytes : Nat), ∀ cfg : X86.MonCfg, cfg.mach.heapBytes = heapBytes → cfg.heap = false →
-          (X86.run text args m cfg).out = t ∧ (X86.run text args m cfg).res = .done v ∧
-          nativeRun text nargs (argvOf args) m cfg = some (renderTrace t, Runtime.exitStatus v.toInt)
+    Fun.noMainCall p' = true → C01_linkChecks p' = true → C01_labelSafe p' = true →
+    C01_conclusion p'
+
+/-! ## the two links that are not theorems yet -/
+
+/-- fun2core, semantics (forward, results): for an accepted `Sequenced` program with a valid `main`
+    that is not called and whose stages pass the checks, every run of the Fun machine that ends with a
+    result is reproduced — same trace, same result — by the Core ς-machine on the translation. -/
+def C01_link_fun2core_sem : Prop :=
+  ∀ (p : Fun.Program) (p' : Fun.CheckedProgram) (q2 : Core.Prog),
+    programNamesOk p = true → checkProgram p = .ok p' → validMain p' = true →
+    Fun.noMainCall p' = true → C01_linkChecks p' = true → Fun.Sequenced p' = true →
+    Fun2Core.compileProg p' = .ok q2 →
+    ∀ (args : List Word) (n : Nat) (t : List (Bool × Word)) (v : Word),
+      ofFun (Fun.run p' args n) = ⟨t, .done v⟩ → ∃ m, ofCore (Core.run q2 args m) = ⟨t, .done v⟩
+
+/-- x86-64 code generation (C06) on the linearized program of such a compilation, if its names are
+    label-safe: every run of the positional AxCut machine that ends with a result is reproduced by
+    the x86-64 machine on the printed routine, given enough fuel and heap. -/
+def C01_link_x86 : Prop :=
+  ∀ (p : Fun.Program) (p' : Fun.CheckedProgram) (st : Stages),
+    programNamesOk p = true → checkProgram p = .ok p' → validMain p' = true →
+    Fun.noMainCall p' = true → C01_linkChecks p' = true → stages p' = .ok st →
+    LabelSafe st.s5 = true → AxCut.LinTypedProg st.s5 →
+    ∀ (args : List Word) (hooks : Bool) (body routine : List X86.Code) (nargs : Nat),
+      X86.compileX86 st.s5 hooks 0 = .ok (body, nargs) → X86.intoRoutine body nargs = .ok routine →
+      ∀ (fuel : Nat) (t : List (Bool × Word)) (v : Word),
+        AxCut.Pos.run st.s5 args fuel = ⟨t, .done v⟩ →
+        C01_onMachines fun cfg fuel' =>
+          (X86.run (X86.printProg routine) args fuel' cfg).out = t ∧
+          (X86.run (X86.printProg routine) args fuel' cfg).res = .done v
+
+/-- the forward half of `ObsSame` (clause 1), restricted like the link, implies the link -/
+theorem C01_link_fun2core_sem_of_forward
+    (h : ∀ (p : Fun.Program) (p' : Fun.CheckedProgram) (q2 : Core.Prog),
+      programNamesOk p = true → checkProgram p = .ok p' → validMain p' = true →
+      Fun.noMainCall p' = true → C01_linkChecks p' = true → Fun.Sequenced p' = true →
+      Fun2Core.compileProg p' = .ok q2 →
+      ∀ (args : List Word) (n : Nat), ObsFinished (ofFun (Fun.run p' args n)).res →
+        ∃ m, ofCore (Core.run q2 args m) = ofFun (Fun.run p' args n)) :
+    C01_link_fun2core_sem := by
+  intro p p' q2 hn hc hv hmc hlc hseq e2 args n t v hrun
+  obtain ⟨m, hm⟩ := h p p' q2 hn hc hv hmc hlc hseq e2 args n (by rw [hrun]; trivial)
+  exact ⟨m, by rw [hm, hrun]⟩
+
+/-- the unrestricted semantic statement of C02 implies the link -/
+theorem C01_link_fun2core_sem_of_C02 (h : C02_sem_statement) : C01_link_fun2core_sem :=
+  C01_link_fun2core_sem_of_forward fun p p' q2 hn hc _ _ _ hseq e2 args n hfin =>
+    (h p p' q2 hn hc hseq e2 args).1 n hfin
+
+/-- the unrestricted statement of C06 (x86-64) implies the link -/
+theorem C01_link_x86_of_C06 (h : X86.C06_statement) : C01_link_x86 := by
+  intro p p' st _ _ _ _ _ _ _ hlin args hooks body routine nargs hcomp hinto fuel t v hrun
+  obtain ⟨m, hb, hE⟩ := h st.s5 args hooks body routine nargs hlin hcomp hinto fuel v (by rw [hrun])
+  refine ⟨hb, fun cfg h1 _ h2 => ⟨m, ?_⟩⟩
+  have := hE cfg h1 h2
+  rw [hrun] at this
+  exact this
 
 /-! ## helper lemmas -/
 
@@ -146,19 +297,376 @@ theorem compileX86_nargs {q5 : AxCut.Prog} {hooks : Bool} {c : Nat} {body : List
       · simp only [Except.ok.injEq, Prod.mk.injEq] at hr
         exact hr.1.2.symm
 
+theorem mainArity_le_five {p' : Fun.CheckedProgram} (hv : validMain p' = true) : mainArity p' ≤ 5 := by
+  unfold validMain at hv
+  unfold mainArity
+  split at hv
+  · rename_i d hd
+    rw [hd]
+    simp only [mainSigOk, Bool.and_eq_true, decide_eq_true_eq] at hv
+    exact hv.1.1
+  · cases hv
+
+/-- a run of the positional machine that does not stop at the entry has as many arguments as the
+    first definition has parameters -/
+theorem pos_run_done_arity {q5 : AxCut.Prog} {d : AxCut.Def} {ds : List AxCut.Def} {args : List Word}
+    {n : Nat} {t : List (Bool × Word)} {v : Word} (hd : q5.defs = d :: ds)
+    (h : AxCut.Pos.run q5 args n = ⟨t, .done v⟩) : args.length = d.ctx.length := by
+  apply Classical.byContradiction
+  intro hne
+  have : AxCut.Pos.run q5 args n = ⟨[], .stuck (.shape "entry-arity")⟩ := by
+    unfold AxCut.Pos.run
+    rw [hd]
+    simp only
+    rw [if_pos]
+    exact fun h => hne h.symm
+  rw [this] at h
+  cases h
+
+/-- a result of the focused machine, read through `coreFsRun` -/
+theorem coreFsRun_done {q3 : Core.FsProg} {args : List Word} {n : Nat} {t : List (Bool × Word)}
+    {v : Word} (hres : (coreFsRun q3 args n).res = .done v) (hout : (coreFsRun q3 args n).out = t) :
+    Core.fsRun q3 args n = ⟨t, .done v⟩ := by
+  simp only [coreFsRun, coreBehaviour] at hres hout
+  cases hb : Core.fsRun q3 args n with
+  | mk out res =>
+    rw [hb] at hres hout
+    simp only at hres hout
+    subst hout
+    cases res with
+    | done w => injection hres with hres; subst hres; rfl
+    | stuck w => cases hres
+    | outOfFuel => cases hres
+
+/-- a stuck run of the focused machine, read through `coreFsRun` -/
+theorem coreFsRun_stuck {q3 : Core.FsProg} {args : List Word} {n : Nat} {t : List (Bool × Word)}
+    {w : String} (hres : (coreFsRun q3 args n).res = .stuck w) (hout : (coreFsRun q3 args n).out = t) :
+    ∃ w', Core.fsRun q3 args n = ⟨t, .stuck w'⟩ := by
+  simp only [coreFsRun, coreBehaviour] at hres hout
+  cases hb : Core.fsRun q3 args n with
+  | mk out res =>
+    rw [hb] at hres hout
+    simp only at hres hout
+    subst hout
+    cases res with
+    | done w => cases hres
+    | stuck w' => exact ⟨w', rfl⟩
+    | outOfFuel => cases hres
+
+/-! ## `C02_sem_statement` as given is false: finding D13 -/
+
+theorem Core.stepN_stable (q : Core.Prog) : ∀ (f : Nat) (s : Core.State) (b : Core.Behaviour),
+    Core.stepN q f s = b → b.res ≠ .outOfFuel → ∀ k, Core.stepN q (f + k) s = b
+  | 0, s, b, h, hb, _ => by
+    simp only [Core.stepN] at h
+    subst h
+    exact absurd rfl hb
+  | f + 1, s, b, h, hb, k => by
+    rw [show f + 1 + k = (f + k) + 1 by omega]
+    simp only [Core.stepN] at h ⊢
+    cases hs : Core.step q s with
+    | next s' => rw [hs] at h; exact Core.stepN_stable q f s' b h hb k
+    | final r => rw [hs] at h; exact h
+
+/-- a finished run of the Core ς-machine does not change with more fuel -/
+theorem Core.run_stable (q : Core.Prog) (args : List Word) (f : Nat) (b : Core.Behaviour)
+    (h : Core.run q args f = b) (hb : b.res ≠ .outOfFuel) (k : Nat) : Core.run q args (f + k) = b := by
+  unfold Core.run at h ⊢
+  split
+  · next hd => simp only [hd] at h; exact h
+  · next d hd =>
+    simp only [hd] at h
+    split
+    · next e he => simp only [he] at h; exact h
+    · next ρ he => simp only [he] at h; exact Core.stepN_stable q f _ b h hb k
+
+/-- `main` calls itself, effect-sequenced (/verif/gen/corpus/regress/c01_main_called_seq.sc) -/
+def C01_d13Src : String :=
+  "def main(n: i64): i64 { if n == 0 { 0 } else { let r: i64 = main(n - 1); r + 1 } }"
+
+/-- on `C01_d13Src`: accepted, valid `main`, `Sequenced`, the translation succeeds; on the argument 3
+    the Fun machine returns 3 and the Core ς-machine on the translation is stuck (`arity`: the inner
+    call passes a continuation that `main` does not take) -/
+def C01_d13Check (src : String) : Bool :=
+  match Fun.Parse.parse .diagOnOverflow src with
+  | .ok p =>
+    programNamesOk p &&
+    match checkProgram p with
+    | .ok p' =>
+      validMain p' && !Fun.noMainCall p' && Fun.Sequenced p' &&
+      match Fun2Core.compileProg p' with
+      | .ok q2 =>
+        decide (ofFun (Fun.run p' [3] 100) = ⟨[], .done 3⟩) &&
+        decide (Core.run q2 [3] 30 = ⟨[], .stuck .arity⟩)
+      | .error _ => false
+    | _ => false
+  | _ => false
+
+set_option maxRecDepth 100000 in
+theorem C01_d13_checks : C01_d13Check C01_d13Src = true := by decide +kernel
+
+/-- **`C02_sem_statement` is false** (finding D13; the former hypothesis `h2` of the composition) -/
+theorem C02_sem_statement_false : ¬ C02_sem_statement := by
+  intro hsem
+  have h := C01_d13_checks
+  unfold C01_d13Check at h
+  cases hp : Fun.Parse.parse .diagOnOverflow C01_d13Src with
+  | ok p =>
+    rw [hp] at h
+    simp only [Bool.and_eq_true] at h
+    obtain ⟨hn, h⟩ := h
+    cases hc : checkProgram p with
+    | ok p' =>
+      rw [hc] at h
+      simp only [Bool.and_eq_true] at h
+      obtain ⟨⟨_, hseq⟩, h⟩ := h
+      cases e2 : Fun2Core.compileProg p' with
+      | ok q2 =>
+        rw [e2] at h
+        simp only [Bool.and_eq_true, decide_eq_true_eq] at h
+        obtain ⟨hfun, hcore⟩ := h
+        obtain ⟨m, hm⟩ := (hsem p p' q2 hn hc hseq e2 [3]).1 100 (by simp only [hfun]; trivial)
+        simp only [hfun] at hm
+        have h1 := Core.run_stable q2 [3] m _ (ofCore_done hm) (by simp) 30
+        have h2 := Core.run_stable q2 [3] 30 _ hcore (by simp) m
+        rw [Nat.add_comm] at h1
+        rw [h1] at h2
+        cases h2
+      | error e => rw [e2] at h; cases h
+    | diag c => rw [hc] at h; cases h
+    | panic c => rw [hc] at h; cases h
+  | diag c => rw [hp] at h; cases h
+  | panic c => rw [hp] at h; cases h
+
+/-! ## the middle of the pipeline: S2 … S5, every link a theorem -/
+
+section middle
+
+variable {p : Fun.Program} {p' : Fun.CheckedProgram} {st : Stages}
+
+/-- C03 (theorem) on the stages of one compilation: ς-machine on S2 ≈ focused machine on S3 -/
+theorem C01_step_focus (F : C12_Facts p p' st) (args : List Word) :
+    ObsEq (Core.run st.s2 args) (Core.fsRun st.s3 args) := by
+  rw [F.s3eq]
+  exact C03_focus_sem_panicFree st.s2 F.input2 F.panicFree2 args
+
+/-- C04 (theorem `C04_sem`) on the stages of one compilation: focused machine on S3 ≈ named AxCut
+    machine on S4; all side conditions derived -/
+theorem C01_step_shrink (F : C12_Facts p p' st) (hv : validMain p' = true) (args : List Word) :
+    SameBehaviour (coreFsRun st.s3 args) (AxCut.Named.run st.s4 args) := by
+  obtain ⟨_, m3, _, _⟩ := stages_mainHead (validMainK_of_validMain hv) F.ok
+  obtain ⟨d3, ds3, hd3, hname3, _, _⟩ := m3
+  exact C04_sem st.s3 st.s4 args F.scoped3 F.uniqueIds3 F.idsBounded3 F.mainInt3
+    ⟨d3, ds3, hd3, hname3⟩ F.s4ok
+
+/-- C05 (theorem `C05_T4`) on the stages of one compilation: named machine on S4 ≈ positional
+    machine on S5 -/
+theorem C01_step_linearize (F : C12_Facts p p' st) (hv : validMain p' = true) (args : List Word) :
+    (∀ n, AxCut.Sim.finishedNamed (AxCut.Named.run st.s4 args n).res →
+      ∃ m, (AxCut.Pos.run st.s5 args m).out = (AxCut.Named.run st.s4 args n).out ∧
+        AxCut.Sim.sameOutcome (AxCut.Named.run st.s4 args n).res (AxCut.Pos.run st.s5 args m).res) ∧
+    (∀ m, AxCut.Sim.finishedPos (AxCut.Pos.run st.s5 args m).res →
+      ∃ n, (AxCut.Pos.run st.s5 args m).out = (AxCut.Named.run st.s4 args n).out ∧
+        AxCut.Sim.sameOutcome (AxCut.Named.run st.s4 args n).res (AxCut.Pos.run st.s5 args m).res) := by
+  obtain ⟨_, _, m4, _⟩ := stages_mainHead (validMainK_of_validMain hv) F.ok
+  obtain ⟨d4, ds4, hd4, _, hint4⟩ := m4
+  have hmain : ∀ d, st.s4.defs.head? = some d → ∀ b ∈ d.ctx, b.chi = .ext ∧ b.ty = .i64 := by
+    intro d hd
+    rw [hd4] at hd
+    simp only [List.head?_cons, Option.some.injEq] at hd
+    subst hd
+    exact hint4
+  exact C05.C05_T4 st.s4 st.s5 args F.wf4 F.noEnv4 hmain F.s5ok
+
+/-- forward: a run of the Core ς-machine on S2 that ends with a result is reproduced by the
+    positional machine on S5 (C03 ∘ C04 ∘ C05) -/
+theorem C01_middle_forward (F : C12_Facts p p' st) (hv : validMain p' = true) {args : List Word}
+    {n2 : Nat} {t : List (Bool × Word)} {v : Word} (hA : Core.run st.s2 args n2 = ⟨t, .done v⟩) :
+    ∃ n5, AxCut.Pos.run st.s5 args n5 = ⟨t, .done v⟩ := by
+  -- (B) C03: ς-machine on S2 ⟶ focused machine on S3
+  have hterm : Terminates (Core.run st.s2 args) ⟨t, .done v⟩ := ⟨n2, hA, by simp⟩
+  obtain ⟨n3, hB, _⟩ := ((C01_step_focus F args).1 _).1 hterm
+  -- (C) C04: focused machine on S3 ⟶ named AxCut machine on S4
+  have hres : (coreFsRun st.s3 args n3).res = .done v := by simp [coreFsRun, coreBehaviour, hB]
+  have hout : (coreFsRun st.s3 args n3).out = t := by simp [coreFsRun, coreBehaviour, hB]
+  obtain ⟨n4, ho, hr⟩ := (C01_step_shrink F hv args).1 n3 (.inl ⟨v, hres⟩)
+  have hC1 : (AxCut.Named.run st.s4 args n4).out = t := by rw [ho, hout]
+  have hC2 : (AxCut.Named.run st.s4 args n4).res = .done v := by
+    rcases hr with ⟨v', hv1, hv2⟩ | ⟨⟨w, hw⟩, _⟩
+    · rw [hres] at hv1
+      injection hv1 with hv1
+      rw [hv2, hv1]
+    · rw [hres] at hw
+      cases hw
+  -- (D) C05: named machine on S4 ⟶ positional machine on S5
+  have hfin : AxCut.Sim.finishedNamed (AxCut.Named.run st.s4 args n4).res := by rw [hC2]; trivial
+  obtain ⟨n5, ho5, hs⟩ := (C01_step_linearize F hv args).1 n4 hfin
+  refine ⟨n5, ?_⟩
+  rw [hC2] at hs
+  cases hb : AxCut.Pos.run st.s5 args n5 with
+  | mk out res =>
+    rw [hb] at ho5 hs
+    simp only at ho5 hs
+    cases res with
+    | done w =>
+      have : v = w := hs
+      subst this
+      rw [ho5, hC1]
+    | stuck w => exact absurd hs (by simp [AxCut.Sim.sameOutcome])
+    | outOfFuel => exact absurd hs (by simp [AxCut.Sim.sameOutcome])
+
+/-- backward: a run of the positional machine on S5 that ends with a result is a run of the Core
+    ς-machine on S2 (C05 ∘ C04 ∘ C03, the converse directions of the three theorems) -/
+theorem C01_middle_backward (F : C12_Facts p p' st) (hv : validMain p' = true) {args : List Word}
+    {n5 : Nat} {t : List (Bool × Word)} {v : Word} (hD : AxCut.Pos.run st.s5 args n5 = ⟨t, .done v⟩) :
+    ∃ n2, Core.run st.s2 args n2 = ⟨t, .done v⟩ := by
+  -- C05: positional machine on S5 ⟶ named machine on S4
+  have hfin : AxCut.Sim.finishedPos (AxCut.Pos.run st.s5 args n5).res := by rw [hD]; trivial
+  obtain ⟨n4, ho4, hs⟩ := (C01_step_linearize F hv args).2 n5 hfin
+  rw [hD] at ho4 hs
+  simp only at ho4 hs
+  have hC2 : (AxCut.Named.run st.s4 args n4).res = .done v := by
+    cases hr : (AxCut.Named.run st.s4 args n4).res with
+    | done w =>
+      rw [hr] at hs
+      have : w = v := hs
+      rw [this]
+    | stuck w => rw [hr] at hs; exact absurd hs (by simp [AxCut.Sim.sameOutcome])
+    | outOfFuel => rw [hr] at hs; exact absurd hs (by simp [AxCut.Sim.sameOutcome])
+  -- C04: named machine on S4 ⟶ focused machine on S3
+  obtain ⟨n3, ho3, hr3⟩ := (C01_step_shrink F hv args).2 n4 (.inl ⟨v, hC2⟩)
+  have hres3 : (coreFsRun st.s3 args n3).res = .done v := by
+    rcases hr3 with ⟨v', hv1, hv2⟩ | ⟨⟨w, hw⟩, _⟩
+    · rw [hC2] at hv1
+      injection hv1 with hv1
+      rw [hv2, hv1]
+    · rw [hC2] at hw
+      cases hw
+  have hB := coreFsRun_done hres3 (ho3.trans ho4.symm)
+  -- C03: focused machine on S3 ⟶ ς-machine on S2
+  have hterm : Terminates (Core.fsRun st.s3 args) ⟨t, .done v⟩ := ⟨n3, hB, by simp⟩
+  obtain ⟨n2, hA, _⟩ := ((C01_step_focus F args).1 _).2 hterm
+  exact ⟨n2, hA⟩
+
+/-- backward, arithmetic faults: a run of the positional machine on S5 that stops with a division
+    by zero or an overflow is a stuck run of the Core ς-machine on S2 with the same trace -/
+theorem C01_middle_backward_fault (F : C12_Facts p p' st) (hv : validMain p' = true)
+    {args : List Word} {n5 : Nat} {t : List (Bool × Word)} {w : AxCut.Pos.Why}
+    (hD : AxCut.Pos.run st.s5 args n5 = ⟨t, .stuck w⟩) (hw : w = .divByZero ∨ w = .overflow) :
+    ∃ n2 w', Core.run st.s2 args n2 = ⟨t, .stuck w'⟩ := by
+  have hfin : AxCut.Sim.finishedPos (AxCut.Pos.run st.s5 args n5).res := by rw [hD]; exact hw
+  obtain ⟨n4, ho4, hs⟩ := (C01_step_linearize F hv args).2 n5 hfin
+  rw [hD] at ho4 hs
+  simp only at ho4 hs
+  have hC2 : ∃ w4, (AxCut.Named.run st.s4 args n4).res = .stuck w4 := by
+    cases hr : (AxCut.Named.run st.s4 args n4).res with
+    | done v => rw [hr] at hs; exact absurd hs (by simp [AxCut.Sim.sameOutcome])
+    | stuck w4 => exact ⟨w4, rfl⟩
+    | outOfFuel => rw [hr] at hs; exact absurd hs (by simp [AxCut.Sim.sameOutcome])
+  obtain ⟨w4, hC2⟩ := hC2
+  obtain ⟨n3, ho3, hr3⟩ := (C01_step_shrink F hv args).2 n4 (.inr ⟨w4, hC2⟩)
+  have hres3 : ∃ w3, (coreFsRun st.s3 args n3).res = .stuck w3 := by
+    rcases hr3 with ⟨v', hv1, _⟩ | ⟨_, hw3⟩
+    · rw [hC2] at hv1
+      cases hv1
+    · exact hw3
+  obtain ⟨w3, hres3⟩ := hres3
+  obtain ⟨w', hB⟩ := coreFsRun_stuck hres3 (ho3.trans ho4.symm)
+  have hterm : Terminates (Core.fsRun st.s3 args) ⟨t, .stuck w'⟩ := ⟨n3, hB, by simp⟩
+  obtain ⟨n2, hA, _⟩ := ((C01_step_focus F args).1 _).2 hterm
+  exact ⟨n2, w', hA⟩
+
+end middle
+
+open Scc.Props.C06Generic (CodeFits ProgWithinCapacity) in
+/-- **C01_middle** — UNCONDITIONAL: no semantic hypothesis, no link.  For every accepted program with
+    a valid `main` whose stages pass the decidable predicate `C01_linkChecks`:
+    (1) the Core ς-machine on S2 and the positional AxCut machine on S5 have the same runs that end
+        with a result: same trace, same value, in both directions (C03 ∘ C04 ∘ C05, all theorems);
+    (2) a run of the positional machine that stops with an arithmetic fault is a stuck run of the
+        Core machine with the same trace;
+    (3) Theorem A: on the code that the generic code generator produces for S5 with the mock backend
+        (any hook setting, any label counter), the abstract backend machine started at the label of
+        the first definition reproduces every run of S5 that ends with a result — provided the names
+        are label-safe, the code fits the address space, the contexts of S5 fit the numbering of
+        temporaries (`ProgWithinCapacity`, = `C01_capacity p'`) and the run is shorter than 2^64 steps
+        (the capacity conditions of `TheoremA_run_static`, all DECIDABLE on the program). -/
+theorem C01_middle (p : Fun.Program) (p' : Fun.CheckedProgram)
+    (hn : programNamesOk p = true) (hc : checkProgram p = .ok p') (hv : validMain p' = true)
+    (hlc : C01_linkChecks p' = true) :
+    ∃ st : Stages, stages p' = .ok st ∧
+      (∀ (args : List Word) (t : List (Bool × Word)) (v : Word),
+        (∃ n, Core.run st.s2 args n = ⟨t, .done v⟩) ↔
+        (∃ m, AxCut.Pos.run st.s5 args m = ⟨t, .done v⟩)) ∧
+      (∀ (args : List Word) (m : Nat) (t : List (Bool × Word)) (w : AxCut.Pos.Why),
+        AxCut.Pos.run st.s5 args m = ⟨t, .stuck w⟩ → w = .divByZero ∨ w = .overflow →
+        ∃ n w', Core.run st.s2 args n = ⟨t, .stuck w'⟩) ∧
+      ∃ d0 ds, st.s5.defs = d0 :: ds ∧ d0.ctx.length = mainArity p' ∧
+        ∀ (hooks : Bool) (c : Nat) (code : List Backend.MockOp) (nargs c' : Nat),
+          (Backend.compile Backend.mockSym hooks st.s5).run c = .ok ((code, nargs), c') →
+          LabelSafe st.s5 = true → CodeFits code → ProgWithinCapacity st.s5 = true →
+          ∀ (args : List Word) (m : Nat) (t : List (Bool × Word)) (v : Word),
+            AxCut.Pos.run st.s5 args m = ⟨t, .done v⟩ → m + 1 < 2 ^ 64 →
+            ∃ f, Backend.Abs.run code (d0.name.print ++ "_") args f = ⟨t, .done v⟩ := by
+  obtain ⟨st, F⟩ := C12_facts_of_checks p p' hn hc hv hlc
+  obtain ⟨_, _, _, m5⟩ := stages_mainHead (validMainK_of_validMain hv) F.ok
+  obtain ⟨d5, ds5, hd5, hk5, hint5⟩ := m5
+  refine ⟨st, F.ok, ?_, ?_, d5, ds5, hd5, hk5, ?_⟩
+  · intro args t v
+    exact ⟨fun ⟨n, h⟩ => C01_middle_forward F hv h, fun ⟨m, h⟩ => C01_middle_backward F hv h⟩
+  · intro args m t w h hw
+    exact C01_middle_backward_fault F hv h hw
+  · intro hooks c code nargs c' hcomp hsafe hfit hcap args m t v hrun hfuel
+    exact C06Generic.TheoremA_run_static hooks st.s5 c code nargs c' d5 args m t v hcomp hsafe F.lin5
+      hfit (by rw [hd5]; rfl) hint5 hcap hfuel hrun
+
+/-- (1) of `C01_middle` in the vocabulary of the common observable -/
+theorem C01_middle_obs (p : Fun.Program) (p' : Fun.CheckedProgram)
+    (hn : programNamesOk p = true) (hc : checkProgram p = .ok p') (hv : validMain p' = true)
+    (hlc : C01_linkChecks p' = true) :
+    ∃ st : Stages, stages p' = .ok st ∧
+      ∀ args : List Word, DoneSame (fun n => ofCore (Core.run st.s2 args n))
+        (fun n => ofPos (AxCut.Pos.run st.s5 args n)) := by
+  obtain ⟨st, hok, h1, _⟩ := C01_middle p p' hn hc hv hlc
+  refine ⟨st, hok, fun args t v => ?_⟩
+  have ofPos_done : ∀ b : AxCut.Pos.Behaviour, ofPos b = ⟨t, .done v⟩ ↔ b = ⟨t, .done v⟩ := by
+    intro b
+    obtain ⟨out, res⟩ := b
+    cases res <;> simp [ofPos]
+  constructor
+  · rintro ⟨n, h⟩
+    obtain ⟨m, hm⟩ := (h1 args t v).1 ⟨n, ofCore_done h⟩
+    exact ⟨m, (ofPos_done _).2 hm⟩
+  · rintro ⟨m, h⟩
+    obtain ⟨n, hn'⟩ := (h1 args t v).2 ⟨m, (ofPos_done _).1 h⟩
+    exact ⟨n, by simp [hn', ofCore]⟩
+
 /-! ## the composition theorem -/
 
-/-- **C01_composition**: the end-to-end statement follows from the per-link statements that are not
-    theorems yet. -/
-theorem C01_composition
-    (h2 : C02_sem_statement) (h3 : C03_statement) (h4 : C04_full_statement)
-    (h6 : X86.C06_statement)
-    (t2 : C12_link_fun2core) (t3 : C12_link_focus) (t4 : C12_link_shrink) :
-    C01_statement := by
-  intro p p' hn hc hv
-  obtain ⟨st, F⟩ := C12_facts t2 t3 t4 p p' hn hc hv
-  obtain ⟨_, m3, m4, m5⟩ := stages_mainHead (validMainK_of_validMain hv) F.ok
-  refine ⟨⟨st.s5, middleEnd_ok_iff.2 ⟨st, F.ok, rfl⟩⟩, ?_⟩
+/-- the conclusion of C01 with the Core ς-machine on S2 as the source semantics (what `srcRun` is on
+    programs outside the fragment `Sequenced`) -/
+def C01_conclusion_core (p' : Fun.CheckedProgram) (st : Stages) : Prop :=
+  ∀ (hooks : Bool) (nargs : Nat) (text : String),
+    compileAllX86 hooks 0 p' = .ok (nargs, text) →
+    nargs = mainArity p' ∧
+    ∀ (args : List Word) (n : Nat) (t : List (Bool × Word)) (v : Word),
+      Core.run st.s2 args n = ⟨t, .done v⟩ →
+      args.length = nargs ∧
+      C01_onMachines fun cfg m =>
+        (X86.run text args m cfg).out = t ∧ (X86.run text args m cfg).res = .done v ∧
+        nativeRun text nargs (argvOf args) m cfg = some (renderTrace t, Runtime.exitStatus v.toInt)
+
+/-- **from the Core program on**: ONE hypothesis, the x86-64 link.  For every program of
+    `C01_statement`, every run of the Core ς-machine on S2 that ends with a result is reproduced by
+    the x86-64 machine on the routine text and by the linked binary (C03, C04, C05, C20: theorems). -/
+theorem C01_from_core (h6 : C01_link_x86) (p : Fun.Program) (p' : Fun.CheckedProgram)
+    (hn : programNamesOk p = true) (hc : checkProgram p = .ok p') (hv : validMain p' = true)
+    (hmc : Fun.noMainCall p' = true) (hlc : C01_linkChecks p' = true)
+    (hls : C01_labelSafe p' = true) :
+    ∃ st, C12_Facts p p' st ∧ C01_conclusion_core p' st := by
+  obtain ⟨st, F⟩ := C12_facts_of_checks p p' hn hc hv hlc
+  obtain ⟨_, _, _, m5⟩ := stages_mainHead (validMainK_of_validMain hv) F.ok
+  refine ⟨st, F, ?_⟩
   intro hooks nargs text hall
   -- the back end ran on `st.s5`
   obtain ⟨q5, hme, hbe⟩ := compileAllX86_ok_iff.1 hall
@@ -167,6 +675,10 @@ theorem C01_composition
   injection hst' with hst'
   subst hst'
   obtain ⟨body, routine, hcomp, hinto, rfl⟩ := backEndX86_ok_iff.1 hbe
+  have hsafe : LabelSafe st.s5 = true := by
+    unfold C01_labelSafe at hls
+    rw [F.ok] at hls
+    exact hls
   -- number of arguments
   obtain ⟨d5, ds5, hd5, hk5, hint5⟩ := m5
   obtain ⟨d5', ds5', hd5', hnargs⟩ := compileX86_nargs hcomp
@@ -175,95 +687,16 @@ theorem C01_composition
   subst e1
   have hnk : nargs = mainArity p' := by rw [hnargs, hk5]
   refine ⟨hnk, ?_⟩
-  intro args n t v hsrc
-  -- (A) source semantics ⟶ Core ς-machine on S2
-  have hA : ∃ n2, Core.run st.s2 args n2 = ⟨t, .done v⟩ := by
-    unfold srcRun at hsrc
-    by_cases hseq : Fun.Sequenced p' = true
-    · rw [if_pos hseq] at hsrc
-      have hfin : ObsFinished ((fun n => ofFun (Fun.run p' args n)) n).res := by
-        simp only [hsrc]; trivial
-      obtain ⟨m, hm⟩ := (h2 p p' st.s2 hn hc hseq F.s2ok args).1 n hfin
-      simp only [hsrc] at hm
-      exact ⟨m, ofCore_done hm⟩
-    · rw [if_neg hseq, F.s2ok] at hsrc
-      exact ⟨n, ofCore_done hsrc⟩
-  obtain ⟨n2, hA⟩ := hA
-  -- (B) C03: ς-machine on S2 ⟶ focused machine on S3
-  have hB : ∃ n3, Core.fsRun st.s3 args n3 = ⟨t, .done v⟩ := by
-    have hobs := (h3 st.s2 F.input2).1 args
-    have hterm : Terminates (Core.run st.s2 args) ⟨t, .done v⟩ := ⟨n2, hA, by simp⟩
-    obtain ⟨n3, hn3, _⟩ := (hobs.1 _).1 hterm
-    rw [F.s3eq]
-    exact ⟨n3, hn3⟩
-  obtain ⟨n3, hB⟩ := hB
-  -- (C) C04: focused machine on S3 ⟶ named AxCut machine on S4
-  have hC : ∃ n4, (AxCut.Named.run st.s4 args n4).out = t ∧
-      (AxCut.Named.run st.s4 args n4).res = .done v := by
-    obtain ⟨d3, ds3, hd3, hname3, _, _⟩ := m3
-    have hsame := h4 st.s3 st.s4 args F.scoped3 F.uniqueIds3 ⟨d3, ds3, hd3, hname3⟩ F.s4ok
-    have hres : (coreFsRun st.s3 args n3).res = .done v := by
-      simp [coreFsRun, coreBehaviour, hB]
-    have hout : (coreFsRun st.s3 args n3).out = t := by
-      simp [coreFsRun, coreBehaviour, hB]
-    obtain ⟨n4, ho, hr⟩ := hsame.1 n3 (.inl ⟨v, hres⟩)
-    refine ⟨n4, by rw [ho, hout], ?_⟩
-    rcases hr with ⟨v', hv1, hv2⟩ | ⟨⟨w, hw⟩, _⟩
-    · rw [hres] at hv1
-      injection hv1 with hv1
-      rw [hv2, hv1]
-    · rw [hres] at hw
-      cases hw
-  obtain ⟨n4, hC1, hC2⟩ := hC
-  -- (D) C05 (theorem): named machine on S4 ⟶ positional machine on S5
-  have hD : ∃ n5, AxCut.Pos.run st.s5 args n5 = ⟨t, .done v⟩ := by
-    obtain ⟨d4, ds4, hd4, _, hint4⟩ := m4
-    have hmain : ∀ d, st.s4.defs.head? = some d → ∀ b ∈ d.ctx, b.chi = .ext ∧ b.ty = .i64 := by
-      intro d hd
-      rw [hd4] at hd
-      simp only [List.head?_cons, Option.some.injEq] at hd
-      subst hd
-      exact hint4
-    have hT4 := C05.C05_T4 st.s4 st.s5 args F.wf4 F.noEnv4 hmain F.s5ok
-    have hfin : AxCut.Sim.finishedNamed (AxCut.Named.run st.s4 args n4).res := by
-      rw [hC2]; trivial
-    obtain ⟨n5, ho, hs⟩ := hT4.1 n4 hfin
-    refine ⟨n5, ?_⟩
-    rw [hC2] at hs
-    cases hb : AxCut.Pos.run st.s5 args n5 with
-    | mk out res =>
-      rw [hb] at ho hs
-      simp only at ho hs
-      cases res with
-      | done w =>
-        have : v = w := hs
-        subst this
-        rw [ho, hC1]
-      | stuck w => exact absurd hs (by simp [AxCut.Sim.sameOutcome])
-      | outOfFuel => exact absurd hs (by simp [AxCut.Sim.sameOutcome])
-  obtain ⟨n5, hD⟩ := hD
+  intro args n2 t v hA
+  -- (B), (C), (D): C03, C04, C05 — theorems
+  obtain ⟨n5, hD⟩ := C01_middle_forward F hv hA
   -- the positional machine ran, so the arity matches
-  have hlen : args.length = nargs := by
-    apply Classical.byContradiction
-    intro hne
-    have : AxCut.Pos.run st.s5 args n5 = ⟨[], .stuck (.shape "entry-arity")⟩ := by
-      unfold AxCut.Pos.run
-      rw [hd5]
-      simp only
-      rw [if_pos]
-      rw [hnargs] at hne
-      exact fun h => hne h.symm
-    rw [this] at hD
-    cases hD
+  have hlen : args.length = nargs := by rw [hnargs]; exact pos_run_done_arity hd5 hD
   refine ⟨hlen, ?_⟩
   -- (E) C06: positional machine on S5 ⟶ x86-64 machine on the routine text
-  have hE := h6 st.s5 args hooks body routine nargs F.lin5 hcomp hinto n5 v (by rw [hD])
-  obtain ⟨m, heapBytes, hE⟩ := hE
-  refine ⟨m, heapBytes, ?_⟩
-  intro cfg hcfg1 hcfg2
-  obtain ⟨hout, hres⟩ := hE cfg hcfg1 hcfg2
-  rw [hD] at hout
-  simp only at hout
+  refine (h6 p p' st hn hc hv hmc hlc F.ok hsafe F.lin5 args hooks body routine
+    nargs hcomp hinto n5 t v hD).mono ?_
+  intro cfg m _ ⟨hout, hres⟩
   refine ⟨hout, hres, ?_⟩
   -- (F) C20: the C driver and io.c around the routine
   unfold nativeRun
@@ -271,26 +704,210 @@ theorem C01_composition
   rw [if_neg (by omega)]
   simp only [argv_roundtrip, hres, hout, traceBytes_eq_render]
 
+/-- **C01_composition**: the end-to-end statement follows from the two semantic links that are not
+    theorems yet; every other link is a theorem. -/
+theorem C01_composition (h2 : C01_link_fun2core_sem) (h6 : C01_link_x86) : C01_statement := by
+  intro p p' hn hc hv hmc hlc hls
+  obtain ⟨st, F, hcore⟩ := C01_from_core h6 p p' hn hc hv hmc hlc hls
+  refine ⟨⟨st.s5, middleEnd_ok_iff.2 ⟨st, F.ok, rfl⟩⟩, ?_⟩
+  intro hooks nargs text hall
+  obtain ⟨hnk, hruns⟩ := hcore hooks nargs text hall
+  refine ⟨hnk, ?_⟩
+  intro args n t v hsrc
+  -- (A) source semantics ⟶ Core ς-machine on S2
+  have hA : ∃ n2, Core.run st.s2 args n2 = ⟨t, .done v⟩ := by
+    unfold srcRun at hsrc
+    by_cases hseq : Fun.Sequenced p' = true
+    · rw [if_pos hseq] at hsrc
+      obtain ⟨m, hm⟩ := h2 p p' st.s2 hn hc hv hmc hlc hseq F.s2ok args n t v hsrc
+      exact ⟨m, ofCore_done hm⟩
+    · rw [if_neg hseq, F.s2ok] at hsrc
+      exact ⟨n, ofCore_done hsrc⟩
+  obtain ⟨n2, hA⟩ := hA
+  exact hruns args n2 t v hA
+
+/-- outside the fragment `Sequenced` the source semantics IS the Core machine on S2: there the
+    end-to-end conclusion needs the x86-64 link only -/
+theorem C01_composition_unsequenced (h6 : C01_link_x86) (p : Fun.Program) (p' : Fun.CheckedProgram)
+    (hn : programNamesOk p = true) (hc : checkProgram p = .ok p') (hv : validMain p' = true)
+    (hmc : Fun.noMainCall p' = true) (hlc : C01_linkChecks p' = true)
+    (hls : C01_labelSafe p' = true) (hseq : Fun.Sequenced p' = false) : C01_conclusion p' := by
+  obtain ⟨st, F, hcore⟩ := C01_from_core h6 p p' hn hc hv hmc hlc hls
+  refine ⟨⟨st.s5, middleEnd_ok_iff.2 ⟨st, F.ok, rfl⟩⟩, ?_⟩
+  intro hooks nargs text hall
+  obtain ⟨hnk, hruns⟩ := hcore hooks nargs text hall
+  refine ⟨hnk, ?_⟩
+  intro args n t v hsrc
+  unfold srcRun at hsrc
+  rw [if_neg (by rw [hseq]; simp), F.s2ok] at hsrc
+  exact hruns args n t v (ofCore_done hsrc)
+
+/-! ## the fragment in which fun2core's semantics is a theorem: ONE hypothesis left -/
+
+/-- `C02_sem_forward_frag` (Props/C02Sem.lean, a theorem) in the shape of `C01_link_fun2core_sem`, for
+    the programs of the fragment `C01_fragChecks` -/
+theorem C01_fun2core_sem_frag (p : Fun.Program) (p' : Fun.CheckedProgram) (q2 : Core.Prog)
+    (hn : programNamesOk p = true) (hc : checkProgram p = .ok p')
+    (hfr : C01_fragChecks p' = true) (e2 : Fun2Core.compileProg p' = .ok q2)
+    (args : List Word) (n : Nat) (t : List (Bool × Word)) (v : Word)
+    (hrun : ofFun (Fun.run p' args n) = ⟨t, .done v⟩) :
+    ∃ m, ofCore (Core.run q2 args m) = ⟨t, .done v⟩ := by
+  simp only [C01_fragChecks, e2, Bool.and_eq_true] at hfr
+  obtain ⟨m, hm⟩ := C02_sem_forward_link p p' q2 hn hc hfr.1 e2 hfr.2 args n (by rw [hrun]; trivial)
+  exact ⟨m, by rw [hm, hrun]⟩
+
+/-- **C01_composition_frag**: for the programs of the fragment `C01_fragChecks` (first-order integers,
+    data types with `case`, labels / `goto`, calls; no codata) the end-to-end conclusion follows from
+    the x86-64 link ALONE: fun2core (C02, forward), focusing (C03), shrinking (C04), linearization (C05)
+    and the runtime (C20) are theorems.  (`noMainCall` is part of `fragOk`.) -/
+theorem C01_composition_frag (h6 : C01_link_x86) (p : Fun.Program) (p' : Fun.CheckedProgram)
+    (hn : programNamesOk p = true) (hc : checkProgram p = .ok p') (hv : validMain p' = true)
+    (hlc : C01_linkChecks p' = true) (hls : C01_labelSafe p' = true)
+    (hfr : C01_fragChecks p' = true) : C01_conclusion p' := by
+  have hmc : Fun.noMainCall p' = true := by
+    simp only [C01_fragChecks, Bool.and_eq_true] at hfr
+    exact (C02_fragOk_sequenced hfr.1).2.1
+  obtain ⟨st, F, hcore⟩ := C01_from_core h6 p p' hn hc hv hmc hlc hls
+  refine ⟨⟨st.s5, middleEnd_ok_iff.2 ⟨st, F.ok, rfl⟩⟩, ?_⟩
+  intro hooks nargs text hall
+  obtain ⟨hnk, hruns⟩ := hcore hooks nargs text hall
+  refine ⟨hnk, ?_⟩
+  intro args n t v hsrc
+  have hseq : Fun.Sequenced p' = true := by
+    simp only [C01_fragChecks, Bool.and_eq_true] at hfr
+    exact (C02_fragOk_sequenced hfr.1).1
+  unfold srcRun at hsrc
+  rw [if_pos hseq] at hsrc
+  obtain ⟨m, hm⟩ := C01_fun2core_sem_frag p p' st.s2 hn hc hfr F.s2ok args n t v hsrc
+  exact hruns args m t v (ofCore_done hm)
+
+/-- `C01_capacity` (Props/C01Checks.lean, evaluated by the driver) is `ProgWithinCapacity` of S5 -/
+theorem C01_capacity_eq {p' : Fun.CheckedProgram} {st : Stages} (h : stages p' = .ok st) :
+    C01_capacity p' = C06Generic.ProgWithinCapacity st.s5 := by
+  unfold C01_capacity
+  rw [h]
+  rfl
+
+/-! ## the x86-64 link through the abstract backend machine (Theorem A used, Theorem B assumed) -/
+
+/-- x86-64 code generation, stated FROM THE ABSTRACT BACKEND MACHINE ("Theorem B for runs", agent
+    pf-x86B: Scc/X86/Ref*.lean): on the linearized program of a compilation of the statement's programs,
+    a run of the abstract machine on the MOCK code of S5 (same hook setting, label counter 0) from the
+    label of the first definition that ends with a result is reproduced by the x86-64 machine on the
+    printed routine, given enough fuel and heap. -/
+def C01_link_x86_abs : Prop :=
+  ∀ (p : Fun.Program) (p' : Fun.CheckedProgram) (st : Stages),
+    programNamesOk p = true → checkProgram p = .ok p' → validMain p' = true →
+    Fun.noMainCall p' = true → C01_linkChecks p' = true → stages p' = .ok st →
+    LabelSafe st.s5 = true → AxCut.LinTypedProg st.s5 →
+    ∀ (args : List Word) (hooks : Bool) (body routine : List X86.Code) (nargs : Nat)
+      (code : List Backend.MockOp) (nargs' c' : Nat) (d0 : AxCut.Def) (ds : List AxCut.Def),
+      X86.compileX86 st.s5 hooks 0 = .ok (body, nargs) → X86.intoRoutine body nargs = .ok routine →
+      (Backend.compile Backend.mockSym hooks st.s5).run 0 = .ok ((code, nargs'), c') →
+      st.s5.defs = d0 :: ds →
+      ∀ (f : Nat) (t : List (Bool × Word)) (v : Word),
+        Backend.Abs.run code (d0.name.print ++ "_") args f = ⟨t, .done v⟩ →
+        C01_onMachines fun cfg fuel' =>
+          (X86.run (X86.printProg routine) args fuel' cfg).out = t ∧
+          (X86.run (X86.printProg routine) args fuel' cfg).res = .done v
+
+open Scc.Props.C06Generic (CodeFits ProgWithinCapacity) in
+/-- Theorem A (`C06Generic.TheoremA_run_static`, a theorem) composed with the abstract-machine form of
+    the x86-64 link: the conclusion of `C01_link_x86` for every run of the positional machine shorter
+    than 2^64 steps, under the decidable capacity conditions of Theorem A on the program (the mock
+    code exists and fits the address space, the contexts fit the numbering of temporaries). -/
+theorem C01_x86_run_of_abs (h : C01_link_x86_abs) (p : Fun.Program) (p' : Fun.CheckedProgram)
+    (st : Stages) (hn : programNamesOk p = true) (hc : checkProgram p = .ok p')
+    (hv : validMain p' = true) (hmc : Fun.noMainCall p' = true) (hlc : C01_linkChecks p' = true)
+    (hok : stages p' = .ok st) (hsafe : LabelSafe st.s5 = true)
+    (args : List Word) (hooks : Bool) (body routine : List X86.Code) (nargs : Nat)
+    (hcomp : X86.compileX86 st.s5 hooks 0 = .ok (body, nargs))
+    (hinto : X86.intoRoutine body nargs = .ok routine)
+    (fuel : Nat) (t : List (Bool × Word)) (v : Word)
+    (hrun : AxCut.Pos.run st.s5 args fuel = ⟨t, .done v⟩)
+    (code : List Backend.MockOp) (nargs' c' : Nat)
+    (hmock : (Backend.compile Backend.mockSym hooks st.s5).run 0 = .ok ((code, nargs'), c'))
+    (hfit : CodeFits code) (hfuel : fuel + 1 < 2 ^ 64)
+    (hcap : ProgWithinCapacity st.s5 = true) :
+    C01_onMachines fun cfg fuel' =>
+      (X86.run (X86.printProg routine) args fuel' cfg).out = t ∧
+      (X86.run (X86.printProg routine) args fuel' cfg).res = .done v := by
+  obtain ⟨st', F⟩ := C12_facts_of_checks p p' hn hc hv hlc
+  have : st' = st := by
+    have := F.ok
+    rw [hok] at this
+    injection this with this
+    exact this.symm
+  subst this
+  obtain ⟨_, _, _, m5⟩ := stages_mainHead (validMainK_of_validMain hv) F.ok
+  obtain ⟨d5, ds5, hd5, _, hint5⟩ := m5
+  obtain ⟨f, hf⟩ := C06Generic.TheoremA_run_static hooks st'.s5 0 code nargs' c' d5 args fuel t v hmock
+    hsafe F.lin5 hfit (by rw [hd5]; rfl) hint5 hcap hfuel hrun
+  exact h p p' st' hn hc hv hmc hlc F.ok hsafe F.lin5 args hooks body routine nargs code nargs' c' d5 ds5
+    hcomp hinto hmock hd5 f t v hf
+
+/-! ## integer programs: the x86-64 link is a theorem up to the loader round trip -/
+
+open Scc.Props.C06Generic (IntProg ProgWithinCapacity) in
+/-- **integer programs** (`C06Generic.IntProg`: `lit op print ifc exit call subst`, every variable an
+    integer): the conclusion of `C01_link_x86` is a THEOREM (`X86.C06_int_programs_text`, agent pf-x86B:
+    Theorem A ∘ Theorem B, Scc/X86/Ref*.lean) under the static capacity condition of Theorem A
+    (`ProgWithinCapacity`, decidable), given that the text of THIS routine loads
+    (`X86.TextLoads routine`: the machine's parser reads the printed routine back up to the text of
+    comments; a fact about one routine, not proved for all routines: `X86.C06_loader_statement`).
+    No heap is needed: any heap size, every sane machine. -/
+theorem C01_x86_run_int (p : Fun.Program) (p' : Fun.CheckedProgram) (st : Stages)
+    (hn : programNamesOk p = true) (hc : checkProgram p = .ok p') (hv : validMain p' = true)
+    (hlc : C01_linkChecks p' = true) (hok : stages p' = .ok st) (hsafe : LabelSafe st.s5 = true)
+    (hip : IntProg st.s5) (hrange : X86.ProgInRange st.s5)
+    (args : List Word) (hooks : Bool) (body routine : List X86.Code) (nargs : Nat)
+    (hcomp : X86.compileX86 st.s5 hooks 0 = .ok (body, nargs))
+    (hinto : X86.intoRoutine body nargs = .ok routine)
+    (fuel : Nat) (t : List (Bool × Word)) (v : Word)
+    (hrun : AxCut.Pos.run st.s5 args fuel = ⟨t, .done v⟩)
+    (hcap : ProgWithinCapacity st.s5 = true)
+    (hload : X86.TextLoads routine) :
+    C01_onMachines fun cfg fuel' =>
+      (X86.run (X86.printProg routine) args fuel' cfg).out = t ∧
+      (X86.run (X86.printProg routine) args fuel' cfg).res = .done v := by
+  obtain ⟨st', F⟩ := C12_facts_of_checks p p' hn hc hv hlc
+  have : st' = st := by
+    have := F.ok
+    rw [hok] at this
+    injection this with this
+    exact this.symm
+  subst this
+  obtain ⟨_, _, _, m5⟩ := stages_mainHead (validMainK_of_validMain hv) F.ok
+  obtain ⟨d5, ds5, hd5, _, _⟩ := m5
+  refine ⟨(0x2000000 : Nat), fun cfg _ hMO hheap => ?_⟩
+  exact X86.C06_int_programs_text st'.s5 args hooks body routine nargs d5 hsafe F.lin5 hip hrange hcomp
+    hinto (by rw [hd5]; rfl)
+    (C06Generic.capacity_static st'.s5 hcap d5 (by rw [hd5]; exact List.mem_cons_self ..) args)
+    fuel t v hrun cfg hMO hheap hload
+
 /-- the exit status of the conclusion is the low byte of the result -/
 theorem C01_exit_status (v : Word) : Runtime.exitStatus v.toInt = (v.toInt % 256).toNat :=
   Runtime.exitStatus_eq _
 
 /-! ## non-vacuity
 
-The premises (`programNamesOk`, accepted, `validMain`) hold for `C12_exSrc` (`C12_example_premises`),
-and so does every decidable side condition of the links (`C12_example_checks`).  Here: the program is
-in the fragment `Sequenced`, the source semantics finishes on the argument 5 (premise of the inner
-implication), and every machine of the chain that the kernel can evaluate gives the same observable —
-i.e. the instance of each semantic link (`C02_sem_statement`, `C03_statement`, `C04_full_statement`,
-`C05_T4`) at this program is true.  (The x86-64 machine keeps its memory in a `Std.HashMap`, which does
-not reduce in the kernel; `#eval ofX86 (X86.run text [5] 5000 {})` gives the same observable, and
-`runLineNative` the bytes `37 0a` with status 0.) -/
+The premises of `C01_statement` / `C01_middle` (`programNamesOk`, accepted, `validMain`, `noMainCall`,
+`C01_linkChecks`) hold for `C12_exSrc` (`C12_example_premises`); here additionally `C01_labelSafe`,
+the program is in the fragment `Sequenced`, the source semantics finishes on the argument 5 (premise
+of the inner implication), and every machine of the chain that the kernel can evaluate gives the same
+observable — i.e. the instance of each semantic link (`C01_link_fun2core_sem`, C03, C04, C05) at this
+program is true; and the capacity conditions of Theorem A (part (3) of `C01_middle`) hold for the mock
+code of S5 and the run on the argument 5, on which the abstract backend machine gives the same
+observable.  (The x86-64 machine keeps its memory in a `Std.HashMap`, which does not reduce in the
+kernel; `#eval ofX86 (X86.run text [5] 5000 {})` gives the same observable, and `runLineNative` the bytes
+`37 0a` with status 0.) -/
 
 def C01_exObs : Obs := ⟨[(true, 7)], .done 0⟩
 
 def C01_exRuns (src : String) : Bool :=
   match frontEnd src with
   | .ok _ p' =>
+    validMain p' && Fun.noMainCall p' && C01_linkChecks p' && C01_labelSafe p' &&
     Fun.Sequenced p' &&
     match stages p' with
     | .ok st =>
@@ -304,8 +921,41 @@ def C01_exRuns (src : String) : Bool :=
     | .error _ => false
   | _ => false
 
+/-- … and it is in the fragment of `C01_composition_frag` -/
+def C01_exFrag (src : String) : Bool :=
+  match frontEnd src with
+  | .ok _ p' => C01_fragChecks p'
+  | _ => false
+
+set_option maxRecDepth 100000 in
+theorem C01_example_frag : C01_exFrag C12_exSrc = true := by decide +kernel
+
 set_option maxRecDepth 100000 in
 theorem C01_example_runs : C01_exRuns C12_exSrc = true := by decide +kernel
+
+/-- the capacity conditions of part (3) of `C01_middle` on the example, and the run of the abstract
+    backend machine on the mock code of S5 -/
+def C01_exAbs (src : String) : Bool :=
+  match frontEnd src with
+  | .ok _ p' =>
+    match stages p' with
+    | .ok st =>
+      match st.s5.defs, (Backend.compile Backend.mockSym true st.s5).run 0 with
+      | d0 :: _, .ok ((code, _), _) =>
+        LabelSafe st.s5 && decide (C06Generic.CodeFits code) &&
+        C06Generic.ProgWithinCapacity st.s5 && C01_capacity p' &&
+        decide ((Backend.Abs.run code (d0.name.print ++ "_") [5] 5000).out = [(true, 7)]) &&
+        decide ((Backend.Abs.run code (d0.name.print ++ "_") [5] 5000).res = .done 0)
+      | _, _ => false
+    | .error _ => false
+  | _ => false
+
+set_option maxRecDepth 100000 in
+theorem C01_example_abs : C01_exAbs C12_exSrc = true := by decide +kernel
+
+/-- `C01_onMachines` is not vacuous: the default machine configuration is sane, its heap monitor off -/
+example : X86.Ref.MachOK ({} : X86.MonCfg).mach ∧ ({} : X86.MonCfg).heap = false :=
+  ⟨X86.Ref.machOK_default, rfl⟩
 
 /-- the conclusion's byte string and exit status for this run: "7\n", status 0 -/
 example : renderTrace C01_exObs.out = [55, 10] ∧ Runtime.exitStatus (0 : Word).toInt = 0 := by decide
@@ -314,9 +964,24 @@ example : renderTrace C01_exObs.out = [55, 10] ∧ Runtime.exitStatus (0 : Word)
 example : Runtime.exitStatus (BitVec.ofInt 64 (-1)).toInt = 255 := by decide
 
 #print axioms C01_composition
+#print axioms C01_from_core
+#print axioms C01_composition_frag
+#print axioms C01_x86_run_of_abs
+#print axioms C01_x86_run_int
+#print axioms C01_composition_unsequenced
+#print axioms C01_middle
+#print axioms C01_middle_obs
+#print axioms C01_middle_forward
+#print axioms C01_middle_backward
+#print axioms C01_middle_backward_fault
+#print axioms C02_sem_statement_false
+#print axioms C01_link_fun2core_sem_of_C02
+#print axioms C01_link_x86_of_C06
 #print axioms traceBytes_eq_render
 #print axioms argv_roundtrip
 #print axioms compileX86_nargs
 #print axioms C01_example_runs
+#print axioms C01_example_frag
+#print axioms C01_example_abs
 
 end Scc.Props
